@@ -35,10 +35,10 @@ FLAGSETS_QUICK = [
 FLAGSETS_THOROUGH = [
     ("cn", ("-fcompound-names",), False, "all", 1),
     ("wide", ("-fcompound-names", "-fwide-types"), True, "main", 1),
-    ("plain", (), False, "boundary", 1),
-    ("noper", ("-fcompound-names", "-no-gen-PER"), False, "main", 2),
-    ("nooer", ("-fcompound-names", "-no-gen-OER"), False, "main", 2),
-    ("widebare", ("-fwide-types", "-no-gen-PER", "-no-gen-OER"), True, "boundary", 1),
+    ("plain", (), False, "lite", 1),
+    ("noper", ("-fcompound-names", "-no-gen-PER"), False, "main", 3),
+    ("nooer", ("-fcompound-names", "-no-gen-OER"), False, "main", 3),
+    ("widebare", ("-fwide-types", "-no-gen-PER", "-no-gen-OER"), True, "lite", 1),
 ]
 
 
